@@ -55,7 +55,8 @@ CHECKS = {
              "end-to-end by the whole-runtime checks."),
     "C13": dict(
         engine="seqx", technique="exhaustive enumeration of histories x checkpoint schedules x GVT values x rollbacks through the real "
-        "fossil-collection code, against a shadow model",
+        "fossil-collection code, against a shadow model; plus complete-state search (stateful exploration, no deviation bound) of the real "
+        "process_msg/fossil step function over every delivery order and legal GVT announcement (h_proc), reference executor as oracle",
         level="model_checking", design_ref="DESIGN.md 4/C13",
         text="Every history of <=4 (thorough 5) events with ties and local/remote sent entries x interval 1..4 x every GVT value at, "
              "between and beyond timestamps x every legal rollback x second collection: kept checkpoint, re-based references, retained "
@@ -85,7 +86,7 @@ CHECKS = {
              "sequences equal to the reference, non-decreasing timestamps, nothing skipped before the stop point, justified and not-early "
              "stop, LP_FINI once per LP last.",
         note="Reference shares the handler and msg_is_before with the runtime (C16 covers the relation)."),
-    "C01": dict(engine="rsched", technique="preemption/deviation-bounded exhaustive exploration of the real runtime under a deterministic scheduler (fork per execution, delay-bounded levels); reference executor as oracle", level="model_checking", design_ref="DESIGN.md 4/C01",
+    "C01": dict(engine="rsched", technique="preemption/deviation-bounded exhaustive exploration of the real runtime under a deterministic scheduler (fork per execution, delay-bounded levels) + complete-state search (stateful exploration, no deviation bound) of the real process_msg/fossil step function over every delivery order and legal GVT announcement (h_proc); reference executor as oracle", level="model_checking", design_ref="DESIGN.md 4/C01",
         text="Every schedule with <=1 non-default decision (2 on two models; thorough 2-3) of RootsimRun on 12 rollback-heavy models x "
              "configurations (threads 2-3, checkpoint interval 1-3/auto, GVT period 0/never) + 50 (thorough 3000) grammar models at p=0: "
              "end state, every committed event and state hash, state after every rollback equal the sequential reference.",
@@ -96,7 +97,7 @@ CHECKS = {
              "inter-sender reordering so that anti-messages overtake, delayed collective completion; d<=2 on one model): same oracles as "
              "C01 plus GVT agreement across ranks and nothing below a reported GVT in flight.",
         note="In-process MPI is my reading of MPI-3.1; <=3 ranks."),
-    "C03": dict(engine="rsched", technique="preemption/deviation-bounded exhaustive exploration of the real runtime under a deterministic scheduler (fork per execution, delay-bounded levels); commit-log oracle at every fossil collection", level="model_checking", design_ref="DESIGN.md 4/C03",
+    "C03": dict(engine="rsched", technique="preemption/deviation-bounded exhaustive exploration of the real runtime under a deterministic scheduler (fork per execution, delay-bounded levels) + complete-state search (stateful exploration, no deviation bound) of the real process_msg/fossil step function over every delivery order and legal GVT announcement (h_proc); commit-log oracle at every fossil collection", level="model_checking", design_ref="DESIGN.md 4/C03",
         text="Long trickling models with back-to-back GVT rounds, runs ended by predicate/exhaustion, termination time, RootsimStop from a "
              "handler and an external thread, p<=1 (thorough 2): every entry leaving a history below the GVT is, in order and content and "
              "state hash, the next event of the sequential per-LP sequence; nothing at or above the GVT is released.",
